@@ -1006,13 +1006,26 @@ def set_kernels(ctx):
                     if o.kind != 'ret':
                         continue
                     def on_sat(m, meth=meth, fa=fa, fb=fb, name=name):
-                        a = '[1, {a: 1}]' if not fa else '[1, 2]'
-                        b = '[1, {b: 1}]' if not fb else '[1]'
-                        text, want = {'is_subset': (f'({a}).containsAll({b})', ('bool', fb and True)), 'is_disjoint': (f'({a}).containsAny({b})', ('bool', True)), 'eq': (f'({a}) == ({b})', ('bool', False))}[meth]
-                        got = native_outcome(ctx, text)
-                        if tuple(got[:2]) != tuple(want):
-                            return ctx.violation(name, 'ast/value.rs: Set fast/authoritative agreement', f'`{text}`: real evaluator returns {got}, sets semantics prescribes {want}', {'op': 'peval', 'expr': text})
-                        return ctx.mismatch(name, f'counterexample in the abstract set model, but `{text}` evaluates to {got} as prescribed')
+                        # concrete sets of each representation (elements as text; equal texts = equal values), every pair tried through the evaluator
+                        lit_sets = [['1', '2'], ['1'], []]
+                        mixed_sets = [['1', '{a: 1}'], ['{a: 1}'], ['1', '2', '[3]'], ['[3]', '{a: 1}']]
+                        last = None
+                        for sa in (lit_sets if fa else mixed_sets):
+                            for sb in (lit_sets if fb else mixed_sets):
+                                a, b = '[' + ', '.join(sa) + ']', '[' + ', '.join(sb) + ']'
+                                if meth == 'is_subset':           # self.is_subset(other) is `other.containsAll(self)`
+                                    text, want = f'({b}).containsAll({a})', ('bool', set(sa) <= set(sb))
+                                elif meth == 'is_disjoint':
+                                    text, want = f'({a}).containsAny({b})', ('bool', bool(set(sa) & set(sb)))
+                                else:
+                                    text, want = f'({a}) == ({b})', ('bool', set(sa) == set(sb))
+                                if not sa or not sb:
+                                    continue                      # the empty set literal does not typecheck in every position; covered by the others
+                                got = native_outcome(ctx, text)
+                                last = (text, got)
+                                if tuple(got[:2]) != tuple(want):
+                                    return ctx.violation(name, 'ast/value.rs: Set fast/authoritative agreement', f'`{text}`: real evaluator returns {got}, sets semantics prescribes {want}', {'op': 'peval', 'expr': text})
+                        return ctx.mismatch(name, f'counterexample in the abstract set model, but the concrete set pairs tried evaluate as prescribed (last: `{last[0]}` = {last[1]})')
                     ctx.decide(f'{name}/path{i}', fa_ + fb_ + o.pc + [z3.Not(o.val.t == truth)], ex=ex, on_sat=on_sat,
                                sample={'path_condition': [str(c)[:80] for c in o.pc][:3], 'result': str(o.val.t)[:120]} if (fa, fb) == (True, False) else None)
     # contains(value)
